@@ -41,6 +41,21 @@ def verdict(tokens, mode):
 def parse(tokens, mode="pvl"):
     omni = mode == "omni"
     odl = mode == "odl"
+    # lexical damage: an unterminated quoted string (units expression) runs to the
+    # end of the text unless a later token contains its closing character, in
+    # which case the tokenisation of the rest is not what this list says
+    for i, t in enumerate(tokens):
+        if t[0] in ("BADQ", "BADU"):
+            if any(tt[0] == "END" for tt in tokens[:i]):
+                break                      # after END nothing is looked at
+            if t[0] == "BADU":
+                # either it runs to the end of the text, or up to the '>' of a later
+                # '<m>' token - and then it contains a second '<', which no units
+                # expression may: ill-formed both ways
+                raise Ill("unterminated-units")
+            if any('"' in tt[1] for tt in tokens[i + 1:]):
+                raise Unspec("lexical damage closed by a later token")
+            raise Ill("unterminated-quoted-string")
     toks = [t for t in tokens if t[0] != "COMMENT"]
     pos = [0]
     flags = {"unspec": None}
